@@ -677,7 +677,7 @@ func main() {
 		}
 		vh.Out(map[string]any{"summary": true, "cases": *n})
 	default:
-		cnt := 0
+		cnt, bad := 0, 0
 		err := vh.EachCase(func(_ int, raw []byte) error {
 			var c tcase
 			if err := json.Unmarshal(raw, &c); err != nil {
@@ -687,6 +687,14 @@ func main() {
 			cnt++
 			vh.Out(out)
 			vh.Flush() // a crash of the code under test in a later case must not lose this result
+			if ok, _ := out["ok"].(bool); !ok {
+				bad++
+				if bad >= 12 && !stuck { // enough evidence: a departing tree is not replayed to the end
+					vh.Out(map[string]any{"truncated": true, "at": c.ID})
+					vh.Flush()
+					os.Exit(0)
+				}
+			}
 			if stuck {
 				vh.Out(map[string]any{"abandon": true, "at": c.ID})
 				vh.Flush()
